@@ -4,6 +4,8 @@
 From WM Require Import Base.Prelude Message.Model Handler.RouterHandle.
 
 Record c02_case := C02 {
+  k_init : settle;                      (* settlement of the message when the subscriber handed it over
+                                           (a subscriber / subscriber decorator may have settled it already) *)
   k_pk : pubkind; k_pb : pubbeh; k_mws : list (mw N);
   k_r : chain_result N;                 (* what the scripted handler itself does *)
   k_tr : list (hevent N); k_final : settle
@@ -22,11 +24,27 @@ Definition hevent_eqb (a b : hevent N) : bool :=
 
 Definition c02_chain (c : c02_case) : chain_result N := mws_apply (k_mws c) (k_r c).
 
+Definition arrived (w : settle) : mstate :=
+  match w with
+  | Unsettled => init CtorNew
+  | Acked => fst (step (init CtorNew) OpAck)
+  | Nacked => fst (step (init CtorNew) OpNack)
+  end.
 Definition c02_mismatch (c : c02_case) : bool :=
-  let '(m, tr) := handle (k_pk c) (k_pb c) (c02_chain c) in
+  let '(m, tr) := handle_from (arrived (k_init c)) (k_pk c) (k_pb c) (c02_chain c) in
   negb (list_eqb hevent_eqb tr (k_tr c) && settle_eqb (st m) (k_final c)).
+(** a message that arrives already settled: the chain is still invoked exactly once, the Router
+    still makes its one settle call (which cannot change anything: first wins, C03), outputs are
+    published as for any other message *)
+Definition arrived_settled_monitor (c : c02_case) : bool :=
+  Nat.eqb (count_calls (k_tr c)) 1 && Nat.eqb (count_settles (k_tr c)) 1
+  && settle_eqb (k_final c) (k_init c)
+  && list_eqb (list_eqb N.eqb) (publishes (k_tr c)) (expected_publishes (k_pk c) (c02_chain c)).
 Definition c02_violates (c : c02_case) : bool :=
-  negb (c02_monitor N.eqb (k_pk c) (k_pb c) (c02_chain c) (k_tr c) (k_final c)).
+  match k_init c with
+  | Unsettled => negb (c02_monitor N.eqb (k_pk c) (k_pb c) (c02_chain c) (k_tr c) (k_final c))
+  | _ => negb (arrived_settled_monitor c)
+  end.
 
 Definition c02_mismatches (cs : list c02_case) : list nat := positions (map c02_mismatch cs).
 Definition c02_violations (cs : list c02_case) : list nat := positions (map c02_violates cs).
